@@ -66,11 +66,15 @@ inline uint64_t seed_env() { const char *s = getenv("VERIF_SEED"); return s ? st
 
 // ---------------------------------------------------------------- faults -----------------------
 // Any crash / uncaught exception / sanitizer death becomes a {"e":"Fault"} line that no spec action accepts.
+inline void (*&pre_fault())() { static void (*f)() = nullptr; return f; }   // e.g. flush buffered events
 inline void fault(const char *kind, const char *what) {
+    static std::atomic<int> once{0};
+    if (once.fetch_add(1) != 0) { for (;;) pause(); }                           // another thread is already reporting
+    if (pre_fault()) { void (*f)() = pre_fault(); pre_fault() = nullptr; f(); }
     Trace &t = T();
     if (t.f) { fprintf(t.f, "{\"e\":\"Fault\",\"kind\":\"%s\",\"what\":%s}\n", kind, jstr(what ? what : "").c_str()); fflush(t.f); }
     fprintf(stderr, "FAULT kind=%s what=%s\n", kind, what ? what : "");
-    _exit(0);
+    _exit(97);
 }
 inline void on_terminate() {
     const char *what = "unknown";
